@@ -9,6 +9,8 @@ SPEC = os.path.join(ROOT, "spec")
 HC = os.path.join(ROOT, "harness", "c")
 # evidence describes /repo; runs redirected to another tree (seeded changes, mutants) write elsewhere
 EVID = os.path.join(ROOT, "evidence") if os.path.realpath(REPO) == "/repo" else os.path.join(BUILD, "evidence_alt")
+# (replays of runs redirected to another tree are kept apart as well: two runs of one check may be going on at once)
+REPLAYS = "replays" if os.path.realpath(REPO) == "/repo" else "replays_alt"
 GUARD = "LHASA_VERIF"
 TLA_CP = "/opt/veriftools/tla/tla2tools.jar:/opt/veriftools/tla/CommunityModules-deps.jar"
 NCPU = os.cpu_count() or 4
@@ -368,7 +370,7 @@ def known_findings(pid):
 
 
 def replay_dir(pid, tag):
-    d = os.path.join(BUILD, "replays", pid, re.sub(r"[^A-Za-z0-9_.-]", "_", str(tag))[:80])
+    d = os.path.join(BUILD, REPLAYS, pid, re.sub(r"[^A-Za-z0-9_.-]", "_", str(tag))[:80])
     if os.path.exists(d):
         shutil.rmtree(d)
     return ensure(d)
